@@ -196,3 +196,26 @@ _ROUND6 = {
 for _k, _add in _ROUND6.items():
     _t = CHECKS[_k]
     CHECKS[_k] = (_t[0], _t[1] + _add, *_t[2:])
+
+# --- additions of the seventh seeding round (DESIGN.md 15.7) ------------------------------------------------------------
+_ROUND7 = {
+    "C02": " Also two runs on one event loop: over a grid of loop-iteration offsets the END of one run falls into every iteration around the other run's ctx.send_event calls.",
+    "C04": " Also a stream consumer that stops listening after k events (closes the generator) and attaches again at an explorer-chosen point: the two sittings together must be the published stream, ending with the terminal event.",
+    "C05": " Also an attempt (first or a retry) that waits with a timeout which expires: the waiting time belongs to the attempt, retry number / previous exception / first-attempt time carry over.",
+    "C06": " Early-retry witnesses carry the root-cause key delay_is_the_next_retrys (the recorded one-step-ahead defect has it true).",
+    "C12": " Also a waiting step (with requirements) whose input event is accepted by a second, auditing step: after a resume only the waiting step runs again on that input.",
+    "C13": " Also a fan-in whose items are RETURNED by producer steps (fan_keeper_returned), with the double-stop points that reach a half-filled fan-in buffer in the quick tier; bound 4 (quick) / 5 on the suspending-store restart programs; with the one write fault, a finalization that is merely delayed is judged after one more fault-free restart.",
+    "C15": " Also a restarted server over a store whose reads suspend while the client's answer reloads the run on demand (C13's driver, judged on the handler record).",
+    "C18": " Values include plain JSON dicts shaped like the serializer's own type markers (__is_pydantic / __is_component + qualified_name + value).",
+    "C21": " Also the legacy ctx column (absent row, valid JSON, bytes that are not UTF-8) read through get_legacy_ctx on both store modes, followed by ordinary handler / event / tick reads.",
+    "C22": " Also dependency cycles (2-cycle, self-cycle) and an acyclic chain declared with postponed string annotations, where every evaluation builds new Resource descriptors.",
+    "C24": " Also a handler that has no run yet (run_id None) next to run_id_in filters, deletes and status updates.",
+    "C26": " Also two resumers of one run - a restarted server's start-up pass and the on-demand reload triggered by a client's event - over a store whose reads suspend (C13's driver).",
+    "C28": " Fault injection also refuses every write of a version row once (the statement between a migration's schema changes and its being recorded; on a legacy database: between creating and seeding the bookkeeping table - the genuine defect found there was repaired, fix 607fe36).",
+    "C30": " Also the hard cancel of a run that is EXECUTING (holds a slot) while siblings execute or queue.",
+    "C33": " The random bytes of the encrypted wire format are owned: every value of the blob's first byte (salt[0]) and every value of its last byte (end of the GCM tag, reached with a deterministic nonce counter) is round-tripped.",
+    "C36": " _TICK_PAGE_SIZE is set to 3 so that the tick log replayed by a reload spans several pages.",
+}
+for _k, _add in _ROUND7.items():
+    _t = CHECKS[_k]
+    CHECKS[_k] = (_t[0], _t[1] + _add, *_t[2:])
